@@ -26,6 +26,8 @@ CLAIMED = {
          "Coq proof: protocol legality + prefix invariant; tie: lock-step correspondence with a map-backed lower level"),
  "C14": ("proof", "For every ascending key list, every quota / minimum-key-bytes setting (hence every hop and every truncated index) and every probe, the index window contains the key's position and its lower bound, and point lookups and range starts through the index equal the linear specification and the un-indexed search (C14_window_contains_key, C14_point_lookup_independent, C14_range_start_independent, C14_unindexed_search_correct; fuel sufficiency proved, no bound on sizes). Tie: function-level correspondence through verif exports (index shape, window, findKeyPos, findStartKeyInclusivePos) and API-level agreement of one directory opened under seven index settings.", "4 (C14)",
          "Coq proof: window/lookup theorems for every hop and truncation; tie: function-level and API-level correspondence"),
+ "C18": ("proof", "For every directory state (any number of data files, incomplete newer files) a read-only open emits no create/write/remove effect and opens every file read-only (C18_readonly_open_never_mutates), persistence and compaction under ReadOnly do nothing (C18_readonly_persist_never_mutates), the newest file with a valid footer is served (C18_serves_newest_valid), and a read-write open removes only other data files. Tie: the model's openStore is compared with the recorded OpenFile calls and unlinks of the implementation on directory states produced by real runs and crash-like edits; directory listing and SHA-256 of every file before/after; served content.", "4 (C18)",
+         "Coq proof: effect model of openStore/persist under ReadOnly; tie: recorded file operations + directory hashes"),
  "C20": ("proof", "Zero dirty segments imply the lower level equals the reference (C20_zero_gauges_mean_persisted), for every schedule. Gauges are compared with the model at every label and, whenever they are zero, the store's own snapshot with the reference tree (child collections included). Known finding F10b (existence-only batches) is listed.", "4 (C20)",
          "Coq proof: zero gauges => lower level = reference; tie: gauges and store content compared at every label"),
 }
